@@ -628,6 +628,50 @@ def emit_binops(b):
     return "\n".join(L)
 
 
+# ---------------------------------------------------------------------------- places where the host code can panic
+PANIC_KINDS = [("panic", r"\bpanic!\s*\("), ("unwrap", r"\.unwrap\(\)"), ("expect", r"\.expect\("), ("unreachable", r"\bunreachable!\s*\("),
+               ("todo", r"\b(?:todo|unimplemented)!\s*\("), ("assert", r"\b(?:debug_)?assert(?:_eq|_ne)?!\s*\("),
+               ("lock", r"\block_deref!\s*\(|\.try_lock\(\)|\.lock\(\)")]
+# (indexing, unchecked arithmetic and narrowing casts can panic too; they are far too common in harmless edits to pin down
+#  syntactically and are left to the correspondence: the extreme-value and alias streams of C02)
+
+
+def panic_tables(repo: Path):
+    """every place of src/ (hooks and test modules excluded) with an explicit way to panic in the host language — panic!,
+    unwrap / expect, unreachable!/todo!, assertions, lock acquisition — counted per (file, function, kind).  The model's
+    crash sites and the WF invariant of G4 were written against exactly this list."""
+    rows = {}
+    for fp in sorted((repo / "src").rglob("*.rs")):
+        if fp.name == "verif_hooks.rs":
+            continue
+        text = strip_comments(fp.read_text())
+        cut = text.find("#[cfg(test)]")
+        if cut >= 0:
+            text = text[:cut]
+        # drop string literals and attributes (their brackets are not indexing)
+        text = re.sub(r'"(?:[^"\\\n]|\\.)*"', '""', text)
+        text = re.sub(r"#!?\[[^\n]*\]", "", text)
+        cur = "<top>"
+        for line in text.split("\n"):
+            m = re.search(r"\bfn\s+(\w+)", line)
+            if m:
+                cur = m.group(1)
+            for kind, rx in PANIC_KINDS:
+                n = len(re.findall(rx, line))
+                if n:
+                    key = (str(fp.relative_to(repo / "src")), cur, kind)
+                    rows[key] = rows.get(key, 0) + n
+    return [f"{f}:{fn}:{k}={n}" for (f, fn, k), n in sorted(rows.items())]
+
+
+def emit_panics(rows):
+    L = ["/-- every place of src/ that can panic in the host language, as `file:function:kind=count` -/",
+         "def panicSites : List (List Char) := ["]
+    L.append(",\n".join(f"  {lean_chars(x)}" for x in rows))
+    L.append("]\n")
+    return "\n".join(L)
+
+
 def extend(repo: Path, tables):
     det = determinism_tables(repo)
     tables["determinism"] = det
@@ -647,6 +691,9 @@ def extend(repo: Path, tables):
     bo = binop_tables(repo)
     tables["binops_eval"] = bo
     tables.setdefault("extra_lean", []).append(emit_binops(bo))
+    ps = panic_tables(repo)
+    tables["panic_sites"] = ps
+    tables.setdefault("extra_lean", []).append(emit_panics(ps))
     eqt = eq_tables(repo)
     tables["eq_arms"] = eqt
     tables.setdefault("extra_lean", []).append(emit_eq(eqt))
